@@ -87,10 +87,21 @@ Proof.
   rewrite Hx. cbn [bind]. eauto.
 Qed.
 
+Lemma good_no_overflow {B} v (k : unit -> res B) :
+  -9223372036854775808 <= v <= 9223372036854775807 -> good (k tt) -> good (bind (no_overflow64 v) k).
+Proof.
+  intros Hv Hk. unfold no_overflow64.
+  destruct ((-9223372036854775808 <=? v) && (v <=? 9223372036854775807)) eqn:E; [exact Hk | lia].
+Qed.
+
 Theorem dec_payload_good payload : good (dec_payload payload).
 Proof.
   unfold dec_payload.
-  gstep. gstep. gstep. gstep. gstep. gstep. gstep. gstep. gstep. gstep. gstep. gstep.
+  gstep. gstep. gstep. gstep. gstep. gstep. gstep. gstep.
+  apply good_no_overflow; [unfold max_expiry_seconds, min_expiry_seconds, billion in *;
+    change (Z.quot 9223372036854775807 1000000000) with 9223372036 in *;
+    change (Z.quot (-9223372036854775808) 1000000000) with (-9223372036) in *; lia|].
+  gstep. gstep. gstep. gstep.
   match goal with |- good (bind (repeat_p ?n p_shard ?l) _) => destruct (shards_ok n l) as (xs & rs & Hx); [unfold zlen in *; lia|] end. rewrite Hx. cbn [bind].
   match goal with |- good (if ?c then _ else _) => destruct c end; [exact I|].
   gstep. gstep.
@@ -308,8 +319,12 @@ Proof.
   rewrite take_app by assumption. cbn [bind]. rewrite Z.mod_small by lia. reflexivity.
 Qed.
 
-Ltac zl := repeat first [rewrite zlen_app | rewrite zlen_cons | rewrite zlen_be16].
-Ltac tif := match goal with |- context [throw_if ?c _ _] => replace c with false; [unfold throw_if at 1 | ] end.
+Lemma zlen_nil {A} : zlen (@nil A) = 0. Proof. reflexivity. Qed.
+Ltac zl := repeat first [rewrite zlen_app | rewrite zlen_cons | rewrite zlen_be16 | rewrite zlen_nil].
+Ltac tif := match goal with
+  | |- throw_if ?c _ _ = _ => replace c with false; [unfold throw_if at 1 | ]
+  | |- context [throw_if ?c _ _] => replace c with false; [unfold throw_if at 1 | ]
+  end.
 
 Lemma p_meta_enc e r : meta_ok e -> p_meta (enc_meta e ++ r) = Ok (e, r).
 Proof.
@@ -410,6 +425,11 @@ Qed.
 Lemma map_id_ext {A} (l : list A) : map (fun x => x) l = l.
 Proof. apply map_id. Qed.
 
+Ltac znn := repeat match goal with
+  | |- context [zlen ?x] => lazymatch goal with | _ : 0 <= zlen x |- _ => fail | _ => pose proof (zlen_nonneg x) end
+  end.
+Ltac slen := zl; znn; lia.
+
 Theorem dec_enc_payload m : wf m -> dec_payload (enc_payload m) = Ok (norm m).
 Proof.
   intros ((Hcid & Lcid) & (Hh & Lh) & (Hn & Ln) & Hthr & Htot & Hexp & (Hsh & Lsh) & (Hme & Lme & Hasc) &
@@ -435,54 +455,200 @@ Proof.
   tif. 2:{ unfold max_expiry_seconds, min_expiry_seconds, billion. cbn [Z.quot]. unfold billion in Hq.
            change (Z.quot 9223372036854775807 1000000000) with 9223372036.
            change (Z.quot (-9223372036854775808) 1000000000) with (-9223372036). lia. }
+  replace (no_overflow64 _) with (Ok tt)
+    by (unfold no_overflow64, billion in *; destruct (_ && _) eqn:E; [reflexivity | lia]).
   cbn [take1 bind].
   unfold tail1.
-  tif. 2:{ zl. rewrite (shards_len _ Hsh). pose proof (zlen_nonneg (flat_map enc_meta (mf_meta m))).
-           match goal with |- context [zlen (flat_map enc_meta (mf_meta m) ++ ?t)] => pose proof (zlen_nonneg t) end.
-           zl. lia. }
+  tif. 2:{ zl. rewrite (shards_len _ Hsh). slen. }
   replace (Z.to_nat (zlen (mf_shards m))) with (length (mf_shards m)) by (unfold zlen; lia).
   rewrite (repeat_p_map p_shard enc_shard (fun s => s) shard_ok p_shard_enc _ _ Hsh). cbn [bind].
   rewrite map_id.
   change (manifest_version =? 1) with false. cbv iota.
-  tif. 2:{ zl. pose proof (zlen_nonneg (flat_map enc_meta (mf_meta m))).
-           match goal with |- context [zlen (flat_map enc_meta (mf_meta m) ++ ?t)] => pose proof (zlen_nonneg t) end.
-           zl. lia. }
+  tif. 2:{ slen. }
   cbn [app take1 bind].
   replace (Z.to_nat (zlen (mf_meta m))) with (length (mf_meta m)) by (unfold zlen; lia).
   rewrite (repeat_p_map p_meta enc_meta (fun s => s) meta_ok p_meta_enc _ _ Hme). cbn [bind].
   rewrite map_id. rewrite (fold_emplace (mf_meta m) [] Hasc). cbn [app].
   change (manifest_version =? 2) with false. cbv iota.
-  tif. 2:{ zl. match goal with |- context [zlen (flat_map enc_hint (mf_hints m) ++ ?t)] => pose proof (zlen_nonneg t) end.
-           pose proof (zlen_nonneg (flat_map enc_hint (mf_hints m))). zl. lia. }
+  tif. 2:{ slen. }
   cbn [take1 bind].
   replace (Z.to_nat (zlen (mf_hints m))) with (length (mf_hints m)) by (unfold zlen; lia).
   change (4 <=? manifest_version) with true.
   rewrite (repeat_p_map (p_hint true) enc_hint norm_hint hint_ok p_hint_enc _ _ Hhi). cbn [bind].
-  tif. 2:{ zl. lia. }
+  tif. 2:{ slen. }
   cbn [app take1 bind].
-  tif. 2:{ zl. match goal with |- context [zlen (mf_advisory m ++ ?t)] => pose proof (zlen_nonneg t) end. zl. lia. }
+  tif. 2:{ slen. }
   rewrite take_app by reflexivity. cbn [bind]. cbv zeta. rewrite u16_be16 by lia.
-  tif. 2:{ zl. match goal with |- context [zlen (mf_advisory m ++ ?t)] => pose proof (zlen_nonneg t) end. zl. lia. }
+  tif. 2:{ slen. }
   rewrite take_app by reflexivity. cbn [bind].
   pose proof (zlen_nonneg (flat_map enc_fallback (mf_fallbacks m))).
   destruct (mf_attest m) as [d|] eqn:Eatt.
   - destruct Hatt as [Hd Ld].
-    tif. 2:{ zl. lia. }
+    tif. 2:{ slen. }
     cbn [app take1 bind]. change (negb (1 =? 0)) with true. cbv iota.
-    tif. 2:{ zl. lia. }
+    tif. 2:{ slen. }
     rewrite take_app by assumption. cbn [bind].
-    tif. 2:{ zl. lia. }
+    tif. 2:{ slen. }
     cbn [app take1 bind].
     replace (Z.to_nat (zlen (mf_fallbacks m))) with (length (mf_fallbacks m)) by (unfold zlen; lia).
     rewrite <- (app_nil_r (flat_map enc_fallback (mf_fallbacks m))).
     rewrite (repeat_p_map p_fallback enc_fallback (fun s => s) fallback_ok p_fallback_enc _ _ Hfb). cbn [bind].
     rewrite map_id. unfold norm. rewrite Eatt. reflexivity.
-  - tif. 2:{ zl. lia. }
+  - tif. 2:{ slen. }
     cbn [app take1 bind]. change (negb (0 =? 0)) with false. cbv iota. cbn [bind].
-    tif. 2:{ zl. lia. }
+    tif. 2:{ slen. }
     cbn [app take1 bind].
     replace (Z.to_nat (zlen (mf_fallbacks m))) with (length (mf_fallbacks m)) by (unfold zlen; lia).
     rewrite <- (app_nil_r (flat_map enc_fallback (mf_fallbacks m))).
     rewrite (repeat_p_map p_fallback enc_fallback (fun s => s) fallback_ok p_fallback_enc _ _ Hfb). cbn [bind].
     rewrite map_id. unfold norm. rewrite Eatt. reflexivity.
 Qed.
+
+(* ---- the whole URI ---- *)
+Lemma byte_mod v : byte_ok (v mod 256).
+Proof. unfold byte_ok. apply Z.mod_pos_bound. lia. Qed.
+
+Lemma be16_ok v : bytes_ok (be16 v).
+Proof. unfold be16. repeat constructor; apply byte_mod. Qed.
+
+Lemma bytes_ok_flat_map {A} (f : A -> list Z) (P : A -> Prop) xs :
+  (forall x, P x -> bytes_ok (f x)) -> Forall P xs -> bytes_ok (flat_map f xs).
+Proof.
+  intros Hf. induction 1 as [|x xs Hx _ IH]; [constructor|].
+  cbn [flat_map]. apply bytes_ok_app; [apply Hf; exact Hx | exact IH].
+Qed.
+
+Lemma bytes_ok_one v : byte_ok v -> bytes_ok [v].
+Proof. intros H. constructor; [exact H | constructor]. Qed.
+
+Ltac bok := repeat first [ assumption | apply be16_ok | apply be64_ok | apply be32_ok | apply bytes_ok_one; apply byte_mod | apply bytes_ok_app ].
+
+Lemma enc_payload_ok m : wf m -> bytes_ok (enc_payload m).
+Proof.
+  intros ((Hcid & Lcid) & (Hh & Lh) & (Hn & Ln) & Hthr & Htot & Hexp & (Hsh & Lsh) & (Hme & Lme & Hasc) &
+          (Hhi & Lhi) & Hbits & (Hadv & Ladv) & Hatt & (Hfb & Lfb)).
+  unfold enc_payload, be64u.
+  apply bytes_ok_app; [apply bytes_ok_one; unfold byte_ok; change manifest_version with 4; lia|].
+  bok.
+  - repeat constructor; apply byte_mod.
+  - apply (bytes_ok_flat_map _ shard_ok); [|exact Hsh]. intros s (_ & Hv & _). unfold enc_shard. bok.
+  - apply (bytes_ok_flat_map _ meta_ok); [|exact Hme]. intros e (Hk & Hv & _). unfold enc_meta. bok.
+  - apply (bytes_ok_flat_map _ hint_ok); [|exact Hhi]. intros h (Hs & Ht & He & _). unfold enc_hint.
+    assert (bytes_ok (eff_scheme h)) by (unfold eff_scheme; destruct (h_scheme h); assumption). bok.
+  - destruct (mf_attest m) as [d|]; [destruct Hatt as [Hd _]; bok; apply bytes_ok_one; unfold byte_ok; lia |
+                                     apply bytes_ok_one; unfold byte_ok; lia].
+  - apply (bytes_ok_flat_map _ fallback_ok); [|exact Hfb]. intros f (Hu & _). unfold enc_fallback. bok.
+Qed.
+
+Lemma forallb_Forall {A} (P : A -> Prop) (f : A -> bool) xs :
+  (forall x, P x -> f x = true) -> Forall P xs -> forallb f xs = true.
+Proof. intros Hf. induction 1 as [|x xs Hx _ IH]; [reflexivity|]. cbn [forallb]. rewrite (Hf x Hx), IH. reflexivity. Qed.
+
+Lemma wf_encode_checks m : wf m -> encode_checks m = true.
+Proof.
+  intros (_ & _ & _ & _ & _ & _ & (Hsh & Lsh) & (Hme & Lme & _) & (Hhi & Lhi) & _ & (_ & Ladv) & _ & (Hfb & Lfb)).
+  unfold encode_checks. repeat (apply andb_true_iff; split); try lia.
+  - apply (forallb_Forall meta_ok); [|exact Hme]. intros e (_ & _ & ? & ?). lia.
+  - apply (forallb_Forall hint_ok); [|exact Hhi]. intros h (_ & _ & _ & _ & ? & ? & ?). lia.
+  - apply (forallb_Forall fallback_ok); [|exact Hfb]. intros f (_ & ? & _). lia.
+Qed.
+
+Lemma prefix_scheme x : is_prefixb uri_scheme (uri_scheme ++ x) = true.
+Proof. apply is_prefixb_spec. eauto. Qed.
+
+(* C17, first half: what the encoder accepts decodes to the same manifest up to [norm] *)
+Theorem encode_decode m : wf m ->
+  exists uri, encode_manifest m = Ok uri /\ decode_manifest uri = Ok (norm m).
+Proof.
+  intros Hwf. unfold encode_manifest. rewrite (wf_encode_checks m Hwf).
+  eexists. split; [reflexivity|].
+  unfold decode_manifest. rewrite prefix_scheme. cbn [negb].
+  change (skipn 6 (uri_scheme ++ ?x)) with x.
+  rewrite b64_roundtrip by (apply enc_payload_ok; exact Hwf). cbn [bind].
+  apply dec_enc_payload. exact Hwf.
+Qed.
+
+(* the C++ types alone (fixed-size arrays, uint8_t fields, std::string bytes, int64 clock, std::map order) *)
+Definition typed (m : manifest) : Prop :=
+  (bytes_ok (mf_chunk_id m) /\ zlen (mf_chunk_id m) = 32) /\
+  (bytes_ok (mf_hash m) /\ zlen (mf_hash m) = 32) /\
+  (bytes_ok (mf_nonce m) /\ zlen (mf_nonce m) = 12) /\
+  0 <= mf_threshold m < 256 /\ 0 <= mf_total m < 256 /\
+  -9223372036854775808 <= mf_expires_ns m < 9223372036854775808 /\
+  Forall (fun s => 0 <= sh_index s < 256 /\ bytes_ok (sh_value s) /\ zlen (sh_value s) = 32) (mf_shards m) /\
+  (Forall (fun e => bytes_ok (fst e) /\ bytes_ok (snd e)) (mf_meta m) /\ asc (mf_meta m)) /\
+  Forall (fun h => bytes_ok (h_scheme h) /\ bytes_ok (h_transport h) /\ bytes_ok (h_endpoint h) /\ 0 <= h_priority h < 256) (mf_hints m) /\
+  0 <= mf_token_bits m < 256 /\ bytes_ok (mf_advisory m) /\
+  (match mf_attest m with Some d => bytes_ok d /\ zlen d = 32 | None => True end) /\
+  Forall (fun f => bytes_ok (f_uri f) /\ 0 <= f_priority f < 256) (mf_fallbacks m).
+
+Lemma Forall_forallb_and {A} (P Q : A -> Prop) (f : A -> bool) xs :
+  (forall x, P x -> f x = true -> Q x) -> Forall P xs -> forallb f xs = true -> Forall Q xs.
+Proof.
+  intros Hf. induction 1 as [|x xs Hx _ IH]; intros Hb; [constructor|].
+  cbn [forallb] in Hb. apply andb_true_iff in Hb. destruct Hb as [H1 H2]. constructor; [apply Hf; assumption | apply IH; exact H2].
+Qed.
+
+Lemma typed_checks_wf m : typed m -> encode_checks m = true -> wf m.
+Proof.
+  intros (Hcid & Hh & Hn & Hthr & Htot & Hexp & Hsh & (Hme & Hasc) & Hhi & Hbits & Hadv & Hatt & Hfb) Hc.
+  unfold encode_checks in Hc.
+  repeat (apply andb_true_iff in Hc; let H := fresh "C" in destruct Hc as [Hc H]).
+  unfold wf. split; [exact Hcid|]. split; [exact Hh|]. split; [exact Hn|]. split; [exact Hthr|].
+  split; [exact Htot|]. split; [exact Hexp|].
+  split; [split; [exact Hsh | lia]|].
+  split; [split; [|split; [lia | exact Hasc]]|].
+  { eapply Forall_forallb_and; [|exact Hme|eassumption]. intros e (? & ?) Hb. unfold meta_ok. repeat split; try assumption; lia. }
+  split; [split; [|lia]|].
+  { eapply Forall_forallb_and; [|exact Hhi|eassumption]. intros h (? & ? & ? & ?) Hb. unfold hint_ok. repeat split; try assumption; lia. }
+  split; [exact Hbits|]. split; [split; [exact Hadv | lia]|]. split; [exact Hatt|].
+  split; [|lia].
+  eapply Forall_forallb_and; [|exact Hfb|eassumption]. intros f (? & ?) Hb. unfold fallback_ok. repeat split; try assumption; lia.
+Qed.
+
+Theorem accepted_roundtrip m uri : typed m -> encode_manifest m = Ok uri -> decode_manifest uri = Ok (norm m).
+Proof.
+  intros Ht He. unfold encode_manifest in He. destruct (encode_checks m) eqn:Hc; [|discriminate].
+  destruct (encode_decode m (typed_checks_wf m Ht Hc)) as (uri' & He' & Hd).
+  unfold encode_manifest in He'. rewrite Hc in He'. congruence.
+Qed.
+
+(* C17, second half: a field the format cannot represent is refused, never truncated *)
+Definition unrepresentable (m : manifest) : Prop :=
+  255 < zlen (mf_shards m) \/ 255 < zlen (mf_meta m) \/ 255 < zlen (mf_hints m) \/ 255 < zlen (mf_fallbacks m) \/
+  65535 < zlen (mf_advisory m) \/
+  Exists (fun e => 255 < zlen (fst e) \/ 65535 < zlen (snd e)) (mf_meta m) \/
+  Exists (fun h => 255 < zlen (eff_scheme h) \/ 255 < zlen (h_transport h) \/ 65535 < zlen (h_endpoint h)) (mf_hints m) \/
+  Exists (fun f => 65535 < zlen (f_uri f)) (mf_fallbacks m).
+
+Lemma forallb_Exists_false {A} (P : A -> Prop) (f : A -> bool) xs :
+  (forall x, P x -> f x = false) -> Exists P xs -> forallb f xs = false.
+Proof.
+  intros Hf. induction 1 as [x xs Hx | x xs _ IH]; cbn [forallb].
+  - rewrite (Hf x Hx). reflexivity.
+  - rewrite IH. apply andb_false_r.
+Qed.
+
+Theorem unrepresentable_refused m : unrepresentable m -> encode_manifest m = Throw LengthError.
+Proof.
+  intros H. unfold encode_manifest.
+  assert (Hc : encode_checks m = false); [|rewrite Hc; reflexivity].
+  unfold encode_checks.
+  destruct H as [H|[H|[H|[H|[H|[H|[H|H]]]]]]].
+  - replace (zlen (mf_shards m) <=? 255) with false by lia. reflexivity.
+  - replace (zlen (mf_meta m) <=? 255) with false by lia. rewrite ?andb_false_r. reflexivity.
+  - replace (zlen (mf_hints m) <=? 255) with false by lia. rewrite ?andb_false_r. reflexivity.
+  - replace (zlen (mf_fallbacks m) <=? 255) with false by lia. rewrite ?andb_false_r. reflexivity.
+  - replace (zlen (mf_advisory m) <=? 65535) with false by lia. rewrite ?andb_false_r. reflexivity.
+  - match goal with |- context [forallb ?f (mf_meta m)] => assert (E : forallb f (mf_meta m) = false) by (eapply forallb_Exists_false; [|exact H]; intros e He; cbv beta in *; lia); rewrite E end. rewrite ?andb_false_r. reflexivity.
+  - match goal with |- context [forallb ?f (mf_hints m)] => assert (E : forallb f (mf_hints m) = false) by (eapply forallb_Exists_false; [|exact H]; intros e He; cbv beta in *; lia); rewrite E end. rewrite ?andb_false_r. reflexivity.
+  - match goal with |- context [forallb ?f (mf_fallbacks m)] => assert (E : forallb f (mf_fallbacks m) = false) by (eapply forallb_Exists_false; [|exact H]; intros e He; cbv beta in *; lia); rewrite E end. rewrite ?andb_false_r. reflexivity.
+Qed.
+
+(* conversely the encoder refuses nothing else *)
+Theorem refused_only_unrepresentable m : encode_manifest m = Throw LengthError \/ exists uri, encode_manifest m = Ok uri.
+Proof. unfold encode_manifest. destruct (encode_checks m); eauto. Qed.
+
+(* the model does flag the signed overflow C18 is about: outside int64 the conversion is UB *)
+Lemma overflow_is_ub v : v < -9223372036854775808 \/ 9223372036854775807 < v -> no_overflow64 v = UB.
+Proof. intros H. unfold no_overflow64. destruct (_ && _) eqn:E; [lia | reflexivity]. Qed.
